@@ -15,12 +15,16 @@ def _writeHeader(outfile, nrho, drho, nr, dr, cutoff, title, atomicNumber, mass,
   print(u"%d %f %f %s" % (atomicNumber, mass, latticeConstant, latticeType), file=outfile)
   print(u"%d %f %d %f %f" % (nrho, drho, nr, dr, cutoff), file=outfile)
 
+# Marks the end of an array in the list passed to _writeValueBlock (not None: a user's function that returns None
+# must fail when its value is formatted, as it does for every other target, rather than be taken for an end marker).
+_END_OF_ARRAY = object()
+
 def _writeValueBlock(outfile, values):
   numbertemplate = u" % 20.16e"
   i = 0
   for value in values:
     i +=1
-    if value == None :
+    if value is _END_OF_ARRAY :
       if i != 1:
         outfile.write(os.linesep)
       i = 0
@@ -227,8 +231,8 @@ def writeFuncFL(
   # to support mixing rules take the sqrt of these values
   charges = [ math.sqrt(charge) for charge in charges ]
 
-  embeds.append(None)
-  charges.append(None)
+  embeds.append(_END_OF_ARRAY)
+  charges.append(_END_OF_ARRAY)
 
   valuelist = []
   valuelist.extend(embeds)
